@@ -137,6 +137,14 @@ structure Facts02 where
   /-- with the `from_bytes` table, undecodable bytes where Date / Time / DateTime / Duration text is expected are a
       ValidationError (good) rather than UnicodeDecodeError -/
   tableUtf8Fault : Bool
+  /-- a native ByteArray value is a sequence of chunks; it is encoded (base64 / hex / urlsafe text) as the concatenation of
+      its chunks (good), so that `Val.bytes` — the concatenation — is all the model needs to know of it; otherwise
+      (base64 chunk by chunk) padding lands inside the text. Witness: `[b'a', b'bcd']`. -/
+  bytesJoinBeforeEncode : Bool
+  /-- the class chosen by a wrapper key from `cls.get_subclasses()` is checked to be a subclass of the declared class (good).
+      The list can hold unrelated classes: a model whose `Attributes` class derives from another model's `Attributes` inherits
+      that model's list. In the model `resolveClass` only ever selects registered descendants of the declared class. -/
+  retagSubclassChecked : Bool
   deriving Repr
 
 /-- the switches the round trip of conformant values depends on -/
